@@ -10,6 +10,7 @@ import (
 	"github.com/nyaruka/gocommon/stringsx"
 	"github.com/nyaruka/goflow/assets"
 	"github.com/nyaruka/goflow/utils"
+	"golang.org/x/text/language"
 )
 
 // Template represents messaging templates used by channels types such as WhatsApp
@@ -48,7 +49,16 @@ func (t *Template) FindTranslation(channel *Channel, locales []i18n.Locale) *Tem
 		return nil
 	}
 
-	match := i18n.NewBCP47Matcher(candidateLocales...).ForLocales(locales...)
+	// the matcher panics on locales which aren't valid BCP47 tags, e.g. the nil locale of an environment which has no
+	// default language, so those are excluded from the preferred locales
+	preferred := make([]i18n.Locale, 0, len(locales))
+	for _, l := range locales {
+		if _, err := language.Parse(string(l)); err == nil {
+			preferred = append(preferred, l)
+		}
+	}
+
+	match := i18n.NewBCP47Matcher(candidateLocales...).ForLocales(preferred...)
 	return candidates[match]
 }
 
